@@ -21,7 +21,7 @@ import re
 
 from ..cfg import ENTRY, EXIT
 from ..effects import USER_CALL
-from ..flow import Defs
+from ..flow import Defs, Scope
 from ..loader import AnalysisError, FuncInfo, dotted, norm, walk_no_nested
 from ..report import Ctx
 from ..selftest import Mutant
@@ -134,6 +134,23 @@ def rule_noreturn(ctx: Ctx) -> None:
         ok = bool(nn) and cfg.must_pass(ENTRY, rn, nn)
         ctx.add("2-noreturn", he, note[0], ok, "the note is added on every path to the re-raise" if ok else
                 "the note is added only conditionally: some failing invocations surface without (or with another invocation's) function name and kwargs", key="note-unconditional")
+    # the keyword arguments are rendered in full: an abbreviating renderer (reprlib, textwrap.shorten, a slice of the text) makes
+    # different failing invocations indistinguishable (a reduction over 25 elements, a long string, ...)
+    sc_he = Scope(ctx, he)
+    abbrev = [n_ for _f, n_ in sc_he.walk() if (isinstance(n_, (ast.Name, ast.Attribute)) and dotted(n_).split(".")[0] in ("reprlib", "textwrap", "pprint") and dotted(n_) not in ("pprint.pformat", "pprint"))
+              or (isinstance(n_, ast.Call) and isinstance(n_.func, ast.Attribute) and n_.func.attr in ("shorten",))]
+    # (module-level renderer objects built from reprlib count as well)
+    for _f, n_ in sc_he.walk():
+        if isinstance(n_, ast.Name) and n_.id in he.module.assigns and any(dotted(x).startswith("reprlib") for x in ast.walk(he.module.assigns[n_.id]) if isinstance(x, (ast.Name, ast.Attribute))):
+            abbrev.append(n_)
+        if isinstance(n_, ast.Call) and isinstance(n_.func, ast.Attribute) and isinstance(n_.func.value, ast.Name) and n_.func.value.id in he.module.assigns:
+            init = he.module.assigns[n_.func.value.id]
+            maker = ctx.cg.resolve_callable(he, init.func) if isinstance(init, ast.Call) else []
+            if any(any(dotted(x).startswith("reprlib") for x in ast.walk(m_.node) if isinstance(x, (ast.Name, ast.Attribute))) for m_ in maker):
+                abbrev.append(n_)
+    sliced = [n_ for _f, n_ in sc_he.walk() if isinstance(n_, ast.Subscript) and isinstance(n_.slice, ast.Slice) and isinstance(n_.value, ast.Call) and dotted(n_.value.func) in ("repr", "str")]
+    ctx.add("2-noreturn", he, (abbrev or sliced or [he.node])[0], not (abbrev or sliced), "the keyword arguments are rendered unabridged" if not (abbrev or sliced) else
+            f"`{norm((abbrev or sliced)[0])[:50]}` abbreviates the rendered keyword arguments: the annotation no longer shows the arguments of the failing invocation (two different invocations of a reduction carry the same note)", key="kwargs-unabridged")
     msg_src = " ".join(norm(s) for s in walk_no_nested(he.node) if isinstance(s, ast.Assign))
     unused = [p_ for p_ in he.param_names()[1:3] if not any(isinstance(x, ast.Name) and x.id == p_ and isinstance(x.ctx, ast.Load) for x in ast.walk(he.node))]
     ctx.tri("2-noreturn", he, he.node, "__name__" in msg_src and not unused, bool(unused), "message names the function and its keyword arguments",
@@ -375,6 +392,12 @@ def _snapshot_rest(ctx: Ctx) -> None:
     wr = {dotted(c.func).split(".")[0] for c in ast.walk(sv.node) if isinstance(c, ast.Call) and dotted(c.func).endswith((".dump", ".dumps")) and "." in dotted(c.func)}
     rd = {dotted(c.func).split(".")[0] for c in ast.walk(ld.node) if isinstance(c, ast.Call) and dotted(c.func).endswith((".load", ".loads")) and "." in dotted(c.func)}
     ctx.tri("4-snapshot", sv, sv.node, bool(wr) and wr == rd, bool(wr) and bool(rd) and wr != rd, "save/load are a matching dump/load pair", f"save_to_file writes with {sorted(wr)} but load_from_file reads with {sorted(rd)}", "save/load not recognised", key="save-load")
+    # the snapshot holds the caller's kwargs and the exception: lambdas / closures / classes of the user's script are only
+    # serialised by value by cloudpickle (__getstate__ cloudpickles the function alone)
+    by_ref = {m_ for m_ in wr | rd if es.module.aliases.get(m_, m_) in ("pickle", "_pickle", "marshal", "json", "dill") or m_ in ("pickle", "marshal", "json")}
+    ctx.tri("4-snapshot", sv, sv.node, (wr | rd) == {"cloudpickle"}, bool(by_ref), "the snapshot file is written and read with cloudpickle (arguments and exception by value)",
+            f"the snapshot file is written/read with {sorted(by_ref)}: an argument that only cloudpickle can serialise (a lambda, a closure) makes save_to_file raise, and an exception class defined in the user's script cannot be loaded in another interpreter - reproduce() after save/load is lost",
+            "serialiser of the snapshot file not recognised", key="save-by-value")
     pe = P.func("pipefunc._pipeline._base.Pipeline.error_snapshot")
     ctx.tri("4-snapshot", pe, pe.node, "self.functions" in norm(pe.node) and ".error_snapshot" in norm(pe.node), ".error_snapshot" not in norm(pe.node), "Pipeline.error_snapshot returns a function's snapshot",
             "Pipeline.error_snapshot no longer reads the functions' snapshots", key="pipeline-snapshot")
